@@ -53,6 +53,38 @@ PARSE_ASSUME = [
     "lexer.Type.String/Name are evaluated once per possible kind instead of being forked inside",
 ]
 
+def validate_cases(tier, seed):
+    """Document shapes of hval.Shapes, split on pinned structural alternatives so every piece
+    is a run that has been measured to finish (timings in DESIGN.md)."""
+    cs = []
+    for a3 in range(5):                      # 0: one argument with any literal, by kind of value
+        cs.append({"shape": 0, "alt3": a3})
+    for a1 in range(5):                      # 1: variable definition (type shape x default) and use
+        for a3 in range(4):
+            cs.append({"shape": 1, "alt1": a1, "alt3": a3})
+    for top in range(3):                     # 2: fragments / spreads / type conditions
+        for inline in range(2):
+            for asp in range(2):
+                for f2, bsp in ((0, 0), (1, 0), (1, 1)):
+                    heavy = inline == 1 and asp == 1 and f2 == 1 and bsp == 1
+                    if heavy and tier == "quick":
+                        continue             # ~170 s each: thorough tier only
+                    cs.append({"shape": 2, "top": top, "inline": inline, "aspread": asp, "frag2": f2, "bspread": bsp})
+    for sh in (3, 4, 5, 6, 8, 9):            # merging, same-named arguments, directives, introspection depth, nesting
+        cs.append({"shape": sh})
+    for a1 in range(4):                      # 7: operations, by kind of the first one
+        cs.append({"shape": 7, "alt1": a1})
+    return cs
+
+
+VALIDATE_ASSUME = [
+    "documents are token streams with symbolic names (choices among existing, non-existing and special names) and a case split over structural alternatives; they are parsed by the real parser (lexer stubbed under the engine, real lexer natively) and validated against a fixed kitchen-sink schema loaded by the real loader",
+    "one representative per behaviour in name sets (e.g. Int stands for every non-composite type condition)",
+    "branch feasibility on one symbolic name is decided by exhaustive evaluation over its options inside the engine, conditions relating two names by z3",
+    "suggestion code (SuggestionList, levenshtein) is run per concrete option of a symbolic name",
+    "reference validator hval.RefValid written from section 5 of the specification; agrees with the library's verdict on all 425 imported graphql-js cases (native test at setup)",
+]
+
 CHECKS = {
     "C01": {
         "units": [
@@ -90,6 +122,24 @@ CHECKS = {
                    "thorough": "<= 5 / 4 free tokens"},
         "outside": "wall time and memory on multi-megabyte inputs; 'work bounded by the limit' is decided as: the result does not depend on anything after the first limit+2 tokens",
         "assumptions": PARSE_ASSUME,
+    },
+    "C08": {
+        "units": [{"pkg": "verifh/hval", "fn": "ValidateRef", "cases": validate_cases, "panic_prop": "C02"}],
+        "covers": ["C08.accepted", "C08.rejected", "C08.accepted-optional-arg", "C08.accepted-required-arg", "C08.accepted-variable-in-optional-arg"],
+        "case_timeout": {"quick": 400, "thorough": 1200},
+        "bounds": {"quick": "10 document shapes (one argument with every kind of literal incl. 32/64-bit integer boundaries, list/object/empty-object literals; a variable definition of every type shape with/without default used bare, in a list, in an object; fragments/spreads/type conditions; field merging below an interface; same-named fields with different arguments; directives; operation kinds/names/subscriptions; introspection depth 5; nested selections) with all names symbolic, against the full default rule set; verdict compared with the reference validator",
+                   "thorough": "the same plus the heaviest fragment pieces (two fragments that both spread, with an inline fragment)"},
+        "outside": "documents larger than the shapes; interactions needing more than 2 fragments or depth > 5; schemas other than the kitchen-sink one; per-rule verdicts (only the overall verdict is compared)",
+        "assumptions": VALIDATE_ASSUME,
+    },
+    "C02": {
+        "units": [{"pkg": "verifh/hval", "fn": "ValidateRef", "cases": validate_cases, "panic_prop": "C02"}],
+        "covers": [],
+        "case_timeout": {"quick": 400, "thorough": 1200},
+        "bounds": {"quick": "validation part only: no run-time panic (index, nil, slice, type assertion, explicit panic, map write) and no exceeded unwinding/recursion bound in Validate with all rules on the C08 document shapes",
+                   "thorough": "same with the heaviest fragment pieces"},
+        "outside": "schema loading on arbitrary SDL (no harness yet); polynomial running time on kilobyte documents; adversarial size-parametrised families",
+        "assumptions": VALIDATE_ASSUME,
     },
     "C03": {
         "units": [
